@@ -141,3 +141,54 @@ Proof.
     apply no_mint_burn_app; [destruct (_ =? 0); repeat constructor|]. eapply route_loop_nmb; [|exact Hr]. constructor.
   - apply bind_ok in H. destruct H as [[] [_ H]]. apply update_config_shape in H. destruct H as (_ & -> & _). constructor.
 Qed.
+
+(* ---------- provide_liquidity (two or more assets): every deposited coin is added to its reserve ---------- *)
+Definition add_deposits (deposits assets : list coin) : res (list coin) :=
+  foldM (fun acc d =>
+           let* i := of_option (index_of_denom (denom_of d) acc) "AssetMismatch" in
+           let* pa := nth_coin i acc in
+           let* v := cadd U128_MAX (amount_of pa) (amount_of d) in
+           Ok (set_nth i (denom_of pa, v) acc)) deposits assets.
+
+Lemma provide_multi_spec w sender funds ls ss r pid u l s' msgs d0 d1 rest :
+  aggregate_coins funds = Ok (d0 :: d1 :: rest) ->
+  provide_liquidity w sender funds ls ss r pid u l = Ok (s', msgs) ->
+  exists p pa' assets'',
+    pool_find (w_pm w) pid = Ok p /\ deposits_enabled (p_status p) = true /\
+    forallb (fun c => has_denom (p_assets p) (denom_of c)) (d0 :: d1 :: rest) = true /\
+    assert_slippage_tolerance ls (d0 :: d1 :: rest) (p_assets p) (p_type p) = Ok pa' /\
+    add_deposits (d0 :: d1 :: rest) pa' = Ok assets'' /\
+    s' = pm_save_pool (w_pm w) (pool_with_assets p assets'') /\
+    (* nothing leaves the pool manager except freshly minted LP (to the receiver, or via itself to the farm manager) *)
+    Forall (fun m => match sm_msg m with
+                     | MTfMint _ _ => True
+                     | MWasm t (WFm (FmPosCreate _ _ _)) fs | MWasm t (WFm (FmPosExpand _)) fs =>
+                         t = pm_farm_manager (pm_cfg (w_pm w)) /\ exists shares, fs = [(p_lp p, shares)]
+                     | _ => False end) msgs.
+Proof.
+  intros Ha. unfold provide_liquidity, mint_lp_msg. intros H.
+  apply bind_ok in H. destruct H as [p [Hp H]].
+  apply bind_ok in H. destruct H as [[] [He H]]. apply ensure_ok in He.
+  rewrite Ha in H. cbn [bind] in H.
+  apply bind_ok in H. destruct H as [[] [_ H]].
+  apply bind_ok in H. destruct H as [[] [Hall H]]. apply ensure_ok in Hall.
+  apply bind_ok in H. destruct H as [ts [_ H]].
+  apply bind_ok in H. destruct H as [[shares msgs0] [Hm0 H]].
+  apply bind_ok in H. destruct H as [pa' [Hpa H]].
+  apply bind_ok in H. destruct H as [msgs1 [Hm1 H]].
+  apply bind_ok in H. destruct H as [assets'' [Hadd H]]. inversion H; subst s' msgs; clear H.
+  exists p, pa', assets''. repeat split; auto.
+  apply Forall_app. split.
+  - clear Hm1. destruct (p_type p); inv_all; repeat constructor; cbn; auto.
+  - destruct u as [dur|].
+    + apply bind_ok in Hm1. destruct Hm1 as [[] [_ Hm1]].
+      apply bind_ok in Hm1. destruct Hm1 as [m [Hmint Hm1]].
+      apply bind_ok in Hmint. destruct Hmint as [[] [_ Hmint]]. inversion Hmint; subst m; clear Hmint.
+      destruct l as [lid|].
+      * destruct (q_position w (pm_farm_manager (pm_cfg (w_pm w))) lid) as [pos|e].
+        -- apply bind_ok in Hm1. destruct Hm1 as [[] [_ Hm1]]. inversion Hm1; subst.
+           constructor; [cbn; exact I|]. constructor; [cbn; split; [reflexivity | eexists; reflexivity]|]. constructor.
+        -- inversion Hm1; subst. constructor; [cbn; exact I|]. constructor; [cbn; split; [reflexivity | eexists; reflexivity]|]. constructor.
+      * inversion Hm1; subst. constructor; [cbn; exact I|]. constructor; [cbn; split; [reflexivity | eexists; reflexivity]|]. constructor.
+    + inv_all; repeat constructor; cbn; auto.
+Qed.
